@@ -106,7 +106,8 @@ func programText(cases []*tcase, forGC bool) string {
 }
 
 // canonical outcome strings, the same as the Lean driver's `eval` answers:
-//   ok <type> <value> | err divzero | err negshift | other: …
+//
+//	ok <type> <value> | err divzero | err negshift | other: …
 func classifyPanic(msg string) string {
 	switch {
 	case strings.Contains(msg, "integer divide by zero"):
